@@ -142,26 +142,41 @@ func registerSumm(l *Lang, s *Summarizer, f *Form) error {
 }
 
 func runC11(p *Program, r *Report) {
-	r.Trusted = []string{"go/types + go/ssa construction", "regexp/syntax as the definition of Go regexp syntax; relang's NFA semantics (cross-checked against package regexp in relang's unit tests)",
-		"strings.ToLower = per-rune unicode.ToLower with invalid bytes mapped to U+FFFD", "WHATWG URL scheme-state summary in specBAD (DESIGN A.1)",
-		"paper lemma: no '&' before the first of [:/?#] ⇒ character-reference decoding leaves the scheme prefix unchanged"}
-	r.Explain = "URLSanitized's shape (input under guard / constant otherwise) is read from SSA; the guard function is summarised into a formula over regexp-match atoms and evaluated to a DFA over all code points + an invalid-byte symbol, with strings.ToLower as inverse letter homomorphism; safety, the no-'&'-before-delimiter lemma premise and the converse inclusion are automata emptiness checks with shortest witnesses."
-	r.Min("C11.R1", 2)
-	r.Min("C11.R4", 1)
-	g := findURLGuard(p, r, "C11.R1")
+	runURLGuardRules(p, r, "C11", true)
+}
+
+// runURLGuardRules decides the URL guard obligations under rule names <pfx>.R1…R7. With full=false
+// only the safety obligations (shape, language, no javascript scheme, no '&' before the first
+// delimiter) are recorded, under <pfx>.U1…U5 (used by C02, which relies on the same guard).
+func runURLGuardRules(p *Program, r *Report, pfx string, full bool) {
+	rn := func(i int) string {
+		if full {
+			return fmt.Sprintf("%s.R%d", pfx, i)
+		}
+		return fmt.Sprintf("%s.U%d", pfx, i)
+	}
+	if full {
+		r.Trusted = []string{"go/types + go/ssa construction", "regexp/syntax as the definition of Go regexp syntax; relang's NFA semantics (cross-checked against package regexp in relang's unit tests)",
+			"strings.ToLower = per-rune unicode.ToLower with invalid bytes mapped to U+FFFD", "WHATWG URL scheme-state summary in specBAD (DESIGN A.1)",
+			"paper lemma: no '&' before the first of [:/?#] ⇒ character-reference decoding leaves the scheme prefix unchanged"}
+		r.Explain = "URLSanitized's shape (input under guard / constant otherwise) is read from SSA; the guard function is summarised into a formula over regexp-match atoms and evaluated to a DFA over all code points + an invalid-byte symbol, with strings.ToLower as inverse letter homomorphism; safety, the no-'&'-before-delimiter lemma premise and the converse inclusion are automata emptiness checks with shortest witnesses."
+		r.Min("C11.R1", 2)
+		r.Min("C11.R4", 1)
+	}
+	g := findURLGuard(p, r, rn(1))
 	if g == nil {
-		r.Undec("C11.R2", "url-guard", "", "guard function not found")
+		r.Undec(rn(2), "url-guard", "", "guard function not found")
 		return
 	}
 	gname := fnName(g.Fn)
 	pos := p.Pos(g.Fn.Pos())
 	if u, why := g.Form.HasUnknown(); u {
-		r.Undec("C11.R2", gname, pos, "guard not summarisable: "+why+" in "+g.Form.String())
+		r.Undec(rn(2), gname, pos, "guard not summarisable: "+why+" in "+g.Form.String())
 		return
 	}
 	L := NewLang()
 	if err := registerSumm(L, g.Summ, g.Form); err != nil {
-		r.Undec("C11.R2", gname, pos, err.Error())
+		r.Undec(rn(2), gname, pos, err.Error())
 		return
 	}
 	for _, s := range []string{specBAD, specAMP, specS1a, specS1b, specS2} {
@@ -171,14 +186,14 @@ func runC11(p *Program, r *Report) {
 	L.Build()
 	A, amb, err := L.Eval(g.Form)
 	if err != nil {
-		r.Undec("C11.R2", gname, pos, err.Error())
+		r.Undec(rn(2), gname, pos, err.Error())
 		return
 	}
-	r.OK("C11.R2", gname, pos, "accepted language A = "+g.Form.String())
+	r.OK(rn(2), gname, pos, "accepted language A = "+g.Form.String())
 	// R3 capture unambiguity
 	if len(amb) > 0 {
 		for _, a := range amb {
-			r.Undec("C11.R3", gname+"#capture", pos, a)
+			r.Undec(rn(3), gname+"#capture", pos, a)
 		}
 	} else {
 		n := 0
@@ -187,43 +202,46 @@ func runC11(p *Program, r *Report) {
 				n++
 			}
 		})
-		r.OK("C11.R3", gname+"#capture", pos, fmt.Sprintf("%d capture comparisons are independent of match priority", n))
+		r.OK(rn(3), gname+"#capture", pos, fmt.Sprintf("%d capture comparisons are independent of match priority", n))
 	}
 	exact := L.CheckExact(g.Summ)
 	// R4 safety
 	bad := L.SearchRe(specBAD)
 	if ok, w := relang.Disjoint(A, bad); ok {
-		r.OK("C11.R4", gname+"#A∩BAD", pos, "no accepted string has the javascript scheme under WHATWG parsing")
+		r.OK(rn(4), gname+"#A∩BAD", pos, "no accepted string has the javascript scheme under WHATWG parsing")
 	} else {
-		r.Viol("C11.R4", gname+"#A∩BAD", pos, "an accepted string is parsed by a browser as a javascript: URL", w)
+		r.Viol(rn(4), gname+"#A∩BAD", pos, "an accepted string is parsed by a browser as a javascript: URL", w)
 	}
 	// R5 no '&' before first delimiter
 	if ok, w := relang.Disjoint(A, L.SearchRe(specAMP)); ok {
-		r.OK("C11.R5", gname+"#A∩AMP", pos, "no accepted string has '&' before its first [:/?#] (premise of the decoding lemma)")
+		r.OK(rn(5), gname+"#A∩AMP", pos, "no accepted string has '&' before its first [:/?#] (premise of the decoding lemma)")
 	} else {
-		r.Viol("C11.R5", gname+"#A∩AMP", pos, "an accepted string has '&' before its first delimiter, so character-reference decoding can change the scheme", w)
+		r.Viol(rn(5), gname+"#A∩AMP", pos, "an accepted string has '&' before its first delimiter, so character-reference decoding can change the scheme", w)
+	}
+	if !full {
+		return
 	}
 	// R6 converse
 	s1 := relang.Minus(L.SearchRe(specS1a), L.SearchRe(specS1b))
 	s2 := L.SearchRe(specS2)
 	if len(exact) > 0 {
-		r.Undec("C11.R6", gname+"#S1∪S2⊆A", pos, "guard summary is only an over-approximation: "+exact[0])
+		r.Undec(rn(6), gname+"#S1∪S2⊆A", pos, "guard summary is only an over-approximation: "+exact[0])
 	} else if ok, w := relang.Subset(relang.Union(s1, s2), A); ok {
-		r.OK("C11.R6", gname+"#S1∪S2⊆A", pos, "every non-javascript ASCII-scheme URL and every URL whose ':'/'&' come after the first [/?#] is kept")
+		r.OK(rn(6), gname+"#S1∪S2⊆A", pos, "every non-javascript ASCII-scheme URL and every URL whose ':'/'&' come after the first [/?#] is kept")
 	} else {
-		r.Viol("C11.R6", gname+"#S1∪S2⊆A", pos, "a URL the statement promises to keep is replaced", w)
+		r.Viol(rn(6), gname+"#S1∪S2⊆A", pos, "a URL the statement promises to keep is replaced", w)
 	}
 	// R7 innocuous constant
 	if bad.Accepts(specInnocuousURL) {
-		r.Viol("C11.R7", "safehtml.InnocuousURL", "", "the innocuous URL itself has the javascript scheme", "")
+		r.Viol(rn(7), "safehtml.InnocuousURL", "", "the innocuous URL itself has the javascript scheme", "")
 	} else {
-		r.OK("C11.R7", "safehtml.InnocuousURL", "", "innocuous URL is not a javascript: URL")
+		r.OK(rn(7), "safehtml.InnocuousURL", "", "innocuous URL is not a javascript: URL")
 	}
 	c := p.Pkg("").Types.Scope().Lookup("InnocuousURL")
 	if k, ok := c.(*types.Const); ok && k.Val().ExactString() == fmt.Sprintf("%q", specInnocuousURL) {
-		r.OK("C11.R7", "safehtml.InnocuousURL#value", p.Pos(c.Pos()), "exported constant has the value fixed by the statement")
+		r.OK(rn(7), "safehtml.InnocuousURL#value", p.Pos(c.Pos()), "exported constant has the value fixed by the statement")
 	} else {
-		r.Viol("C11.R7", "safehtml.InnocuousURL#value", "", "exported constant InnocuousURL is not "+specInnocuousURL, "")
+		r.Viol(rn(7), "safehtml.InnocuousURL#value", "", "exported constant InnocuousURL is not "+specInnocuousURL, "")
 	}
 	r.Analysed["alphabet_classes"] = L.A.N()
 	r.Analysed["guard_formula"] = g.Form.String()
